@@ -127,7 +127,7 @@ Definition dump (m : gsmap) : wire :=
 
 (* a program run from a builder whose seed is [seed] *)
 Definition run_prog_seeded (sec : wire) (seed : gsmap) : wire :=
-  let '(tr, st) := weave sec (run_core sec) (mkW seed []) in
+  let '(tr, st) := weave sec (run_core0 sec) (mkW seed []) in
   tr ++ dump (w_gs st).
 
 Definition run_prog (sec : wire) : wire := run_prog_seeded sec (seed_of sec).
